@@ -24,7 +24,7 @@ mut=$(cd $wt && go test -vet=off -count=1 -run "$run" ./$pkgdir/ 2>&1 | tail -1 
 rm $wt/$dest
 res=""; classes=""
 for c in $checks; do
-  (cd /verif && VERIF_REPO=$wt VERIF_OUT=$out ./run.sh $c quick > $out/last.txt 2>&1); rc=$?
+  (cd ${VERIF_HOME:-/verif} && VERIF_REPO=$wt VERIF_OUT=$out ./run.sh $c quick > $out/last.txt 2>&1); rc=$?
   o=$(tr -d '\0' < $out/last.txt)
   res="$res $c:$rc"
   if [ $rc -ne 0 ]; then cls=$(echo "$o" | grep -m2 'class=' | sed 's/ *class=//' | tr '\n' ';'); classes="$classes|$c=$cls"; fi
